@@ -869,6 +869,53 @@ func (c *c06Case) doDelete(n int, key string) {
 	c.emit(ev, itoa(int(c.now()))+"!"+c.snap(n))
 }
 
+// scriptDelPush: a node holds several keys, deletes one of them (KV.Delete: the key-level tombstone stays
+// in its store) and then pushes its full state to the others, repeatedly (LocalState serialises the
+// keys in random map order, so the deleted key precedes and follows the live ones). The live keys must
+// arrive everywhere, never be marked deleted, and their watchers must be called.
+func (c *c06Case) scriptDelPush() {
+	r := c.r
+	n := c.o.nNodes
+	a := r.intn(n)
+	ks := []string{"r1", "r2", "p1"}
+	for i := len(ks) - 1; i > 0; i-- {
+		j := r.intn(i + 1)
+		ks[i], ks[j] = ks[j], ks[i]
+	}
+	ks = ks[:2+r.intn(2)]
+	write := func(node int, key string) {
+		if strings.HasPrefix(key, "p") {
+			c.doCAS(node, key, c.genPartOps(node, key))
+		} else {
+			d, _ := c.nextDelta(key + "a")
+			c.doCAS(node, key, "hb:a:"+itoa(d)+":"+stateCode[pick(r, c06States)]+":"+itoa(1+r.intn(15)))
+		}
+	}
+	for _, k := range ks {
+		write(a, k)
+	}
+	b := (a + 1 + r.intn(n-1)) % n
+	live := ks[1:]
+	if r.chance(1, 2) {
+		c.doPushPull(a, b, "", 0) // the receiver already holds the keys
+	}
+	if r.chance(2, 3) {
+		c.doWatch(b, false, pick(r, live))
+	}
+	c.doDelete(a, ks[0])
+	if r.chance(1, 2) {
+		write(a, pick(r, live)) // an acknowledged update of a live key after the delete
+	}
+	for rep := 0; rep < 2; rep++ {
+		for i := 0; i < n; i++ {
+			if i != a {
+				c.doPushPull(a, i, "", 0)
+			}
+		}
+	}
+	c.doSettle("st")
+}
+
 // scriptUnknownLeft: the removal of an instance reaches a replica that holds the key but has never
 // heard of that instance, BEFORE any message carrying the instance's registration; the older
 // registration message arrives afterwards (reordering within the retention). The replica must keep
@@ -1145,6 +1192,9 @@ func (c *c06Case) run() (cfg, events, obs string) {
 	if o.script == "unknownleft" && o.nNodes >= 3 {
 		c.scriptUnknownLeft()
 	}
+	if o.script == "delpush" {
+		c.scriptDelPush()
+	}
 	for step := 0; step < o.nEvents; step++ {
 		n := r.intn(o.nNodes)
 		if step < 2 && o.script == "" {
@@ -1339,7 +1389,11 @@ func runC06(e *env) {
 	c06RunMany(e, "C06.run", 150*e.scale, 3, func(i int, r *rng) c06Opts {
 		return c06Opts{nNodes: 2 + r.intn(2), mult: 2, lit: 3600, gcOld: true, nEvents: 10 + r.intn(20), removal: 20}
 	})
-	// key-level Delete (the Deleted / UpdateTime register); observation + correspondence only
+	// key-level Delete next to live keys: delete one key, push the full state (both key orders occur)
+	c06RunMany(e, "C06.run", 150*e.scale, 8, func(i int, r *rng) c06Opts {
+		return c06Opts{nNodes: 2 + r.intn(3), mult: 2, lit: 0, keyDelete: true, ni: r.chance(1, 5), nEvents: r.intn(12), removal: 20, script: "delpush"}
+	})
+	// key-level Delete (the Deleted / UpdateTime register): the deleted keys themselves are correspondence only
 	c06RunMany(e, "C06.run", 100*e.scale, 6, func(i int, r *rng) c06Opts {
 		return c06Opts{nNodes: 2 + r.intn(3), mult: 2, lit: 0, keyDelete: true, nEvents: 12 + r.intn(24), removal: 20}
 	})
